@@ -243,6 +243,25 @@ def run(tier):
                             "ok": (np.abs(cg - ref) <= 2e-3 * ref).astype(int).tolist()})
                     tr.add({"kind": "flags", "name": "RatioRange", "what": "0.5 <= cg/c <= 1 %s" % lab,
                             "ok": ((ratio >= 0.5 - 1e-12) & (ratio <= 1.0 + 1e-12)).astype(int).tolist()})
+        # ---- (4b) group velocity on calls that stay inside ONE regime (a shortcut taken when every element of a call looks deep, or
+        # shallow, must still be right): the regime classes of Dispersion.tla's level mixes, one class per call, scalars included
+        bands = [(1e-5, 0.05), (0.05, 0.5), (0.5, math.pi), (math.pi, 5.0), (5.0, 20.0), (20.0, 1e5)]
+        for rep in range(12 if quick else 200):
+            lo_, hi_ = bands[rep % len(bands)]
+            n = rng.choice([1, 1, 3, 50])
+            dd = np.array([rnd_d(0.0) for _ in range(n)])
+            kd = np.exp(np.array([rng.uniform(math.log(lo_), math.log(hi_)) for _ in range(n)]))
+            kk = kd / dd
+            if n == 1 and rng.random() < 0.5:
+                cg = np.atleast_1d(np.asarray(ld.intrinsic_group_velocity(float(kk[0]), float(dd[0])), dtype="float64"))
+            else:
+                cg = np.asarray(ld.intrinsic_group_velocity(kk, dd), dtype="float64")
+            ref = dwdk(kk, dd)
+            evals += n
+            with np.errstate(all="ignore"):
+                tr.add({"kind": "flags", "name": "GroupVelocity", "what": "cg = dw/dk (2e-3), every element with kd in [%g, %g]" % (lo_, hi_),
+                        "ok": (np.abs(cg - ref) <= 2e-3 * ref).astype(int).tolist()})
+            distinct.add(("cg-regime", rep % len(bands), n))
         # ---- (5) order: increasing in w, non-increasing in d -------------------------------------------------------------------
         for rep in range(20 if quick else 200):
             d = rnd_d(0.15)
@@ -269,8 +288,13 @@ def run(tier):
         for rep in range(6 if quick else 60):
             dval = {"d1": rng.uniform(0.5, 3.0), "d2": rng.uniform(15.0, 60.0), "inf": np.inf, "nan": np.nan}
             nf = rng.choice([8, 20])
-            f = np.sort(np.array([rng.uniform(0.02, 0.6) for _ in range(nf)]))
-            f[0] = rng.uniform(0.02, 0.03)
+            if rep % 2:
+                f = np.sort(np.array([rng.uniform(0.02, 0.6) for _ in range(nf)]))
+                f[0] = rng.uniform(0.02, 0.03)
+            else:
+                # the whole frequency range of the property: w = 2 pi f from 3e-3 to 50 rad/s
+                f = np.sort(np.exp(np.array([rng.uniform(math.log(3e-3 / (2 * math.pi)), math.log(50.0 / (2 * math.pi))) for _ in range(nf)])))
+                f[0], f[-1] = 3.0e-3 / (2 * math.pi) * 1.001, 50.0 / (2 * math.pi) * 0.999
             layout = ["scalar", "time", "time_lat", "flat"][rep % 4]
             kind = "2d" if rep % 3 == 2 else "1d"
             B = 1 if layout == "scalar" else rng.choice([2, 5])
